@@ -6,10 +6,10 @@
 package verifio
 
 import (
-	"runtime/debug"
 	"bufio"
 	"fmt"
 	"os"
+	"runtime/debug"
 	"strings"
 )
 
@@ -49,7 +49,7 @@ func Main(runners map[string]Runner) {
 func protect(r Runner, f []string) (res string) {
 	defer func() {
 		if p := recover(); p != nil {
-			res = "PANIC " + strings.ReplaceAll(strings.ReplaceAll(fmt.Sprint(p), " ", "_"), "\n", "_")
+			res = "PANIC " + strings.ReplaceAll(strings.ReplaceAll(fmt.Sprint(p), " ", "_"), "\n", "_") + "@" + PanicSite(debug.Stack())
 			if os.Getenv("VERIF_STACK") != "" {
 				fmt.Fprintf(os.Stderr, "%v\n%s\n", p, debug.Stack())
 			}
@@ -78,4 +78,29 @@ func Split(s, sep string) []string {
 		return nil
 	}
 	return strings.Split(s, sep)
+}
+
+// PanicSite extracts file:line of the innermost frame of the repository (not the harness, not the runtime) from a stack trace.
+func PanicSite(stack []byte) string {
+	lines := strings.Split(string(stack), "\n")
+	seenPanic := false
+	for _, l := range lines {
+		l = strings.TrimSpace(l)
+		if strings.HasPrefix(l, "panic(") {
+			seenPanic = true
+			continue
+		}
+		if !seenPanic || !strings.HasPrefix(l, "/") {
+			continue
+		}
+		if strings.Contains(l, "/runtime/") || strings.Contains(l, "zz_verif") || strings.Contains(l, "/verifio/") {
+			continue
+		}
+		f := strings.Fields(l)[0]
+		if i := strings.Index(f, "/kubernetes-ingress/"); i >= 0 {
+			f = f[i+len("/kubernetes-ingress/"):]
+		}
+		return strings.TrimPrefix(f, "/repo/")
+	}
+	return "?"
 }
